@@ -116,14 +116,15 @@ ADDENDA = {
 ADDENDA3 = {
     "C03": "Round 3: the compute / return tables and the builtin call table have one arm per variant (a guarded second arm is a hidden row); read-back threads no mutable state across environments and is followed through a delegating worker; Type::from(&Constant) names the constant's own kind with list / pair components in place.",
     "C04": "Round 3: where the Aiken signature names a concrete list element type, the call arm checks the list's element type (fixed: both multiScalarMul arms accepted an empty list of another type); a semantics-gated argument check precedes every successful return of its arm; one arm per builtin in the call / cost / signature tables; the evaluator section of C10's panic audit is re-run (a builtin never crashes the evaluator).",
-    "C05": "Round 3: every arm of a constructor in Machine::compute (guarded ones included) charges its step; one cost arm per builtin.",
+    "C05": "Round 3: every arm of a constructor in Machine::compute (guarded ones included) charges its step; one cost arm per builtin; an evaluation entry point that is given the script's language prices the run with that language's cost model (fixed: eval_version / eval_debug used the V3 model for every version).",
+    "C11": "Round 3: in all four directions the binder protocol of a Lambda ends with the removal of the binder it declared (fixed: index -> name conversions left it behind, so an index reaching a sibling lambda's level was bound instead of reported free).",
     "C06": "Round 3: the key under which a generic function's instantiations are compiled gives every UplcType constructor its own suffix and association lists a key apart from plain lists; AirTree::mut_held_types exposes every held type (shared with C01).",
     "C07": "Round 3: the current module's constructor table answers only for types of the current module — a prelude type is looked up in the prelude (fixed: a local type named like a prelude type hijacked the exhaustiveness check).",
     "C08": "Round 3: a SerializableProgram version variant is written only in a match arm on that version or under the hash comparison for it; Project::address and ::policy hash a loaded validator under its own version (fixed: address used the project configuration's); the delegation part keeps the kind of the stake credential.",
     "C09": "Round 3: the reduce step of the parallel parse looks for common keys before it extends; flags folded over the directory walk are monotone; Definitions::register leaves no in-progress mark behind on an error (fixed: --include-all-types was hash-order dependent); inside the hash-ordered loops of Blueprint::new definitions are only added to.",
     "C16": "Round 3: TestResult::is_success, evaluated as a finite decision table over (Err | Ok(None) | Ok(Some)) x (3 modes), equals the specification; the seed given on the command line reaches the run unchanged.",
     "C17": "Round 3: no static or thread_local holds reference-counted AST data.",
-    "C18": "Round 3: an application too many is an Err whatever the form of Validator::apply; every lockstep walk of a value and its schema compares the two lengths first.",
+    "C18": "Round 3: an application too many is an Err whatever the form of Validator::apply; every lockstep walk of a value and its schema compares the two lengths first; the interactive construction of a parameter uses the declared constructor index of the chosen alternative (fixed: it used the position in anyOf).",
     "C20": "Round 3: a parser action converting a sequence into a non-empty vector with expect is fed by `.at_least(1)`; an error value whose construction can panic is built lazily.",
 }
 for _pid, _t in ADDENDA3.items():
